@@ -566,12 +566,21 @@ type lifeResult struct {
 }
 
 func runLifetime(r *simkit.Run, t *topo, failKey, failWhat string) *lifeResult {
+	if failKey == "" {
+		return runLifetimeSet(r, t, nil)
+	}
+	return runLifetimeSet(r, t, map[string]string{failKey: failWhat})
+}
+
+// runLifetimeSet: fails maps component keys to "start", "shutdown" or "both".
+func runLifetimeSet(r *simkit.Run, t *topo, fails map[string]string) *lifeResult {
 	w := NewWorld(r)
-	if failKey != "" {
-		p := w.plan(failKey)
-		if failWhat == "start" {
+	for k, what := range fails {
+		p := w.plan(k)
+		if what == "start" || what == "both" {
 			p.FailStart = true
-		} else {
+		}
+		if what == "shutdown" || what == "both" {
 			p.FailShutdown = true
 		}
 	}
@@ -668,9 +677,23 @@ func (t *topo) pipeSinks(p pipeCfg) []string {
 func pipelineNameOf(id pipeline.ID) string { return id.String() }
 
 func checkLifetime(r *simkit.Run, t *topo, res *lifeResult, failKey, failWhat string) {
+	if failKey == "" {
+		checkLifetimeSet(r, t, res, nil)
+		return
+	}
+	checkLifetimeSet(r, t, res, map[string]string{failKey: failWhat})
+}
+
+func checkLifetimeSet(r *simkit.Run, t *topo, res *lifeResult, fails map[string]string) {
 	tag := "fault-free"
-	if failKey != "" {
+	failKey, failWhat := "", ""
+	if len(fails) == 1 {
+		for k, w := range fails {
+			failKey, failWhat = k, w
+		}
 		tag = failWhat + "-failure"
+	} else if len(fails) > 1 {
+		tag = "several-failures"
 	}
 	pos := map[string]map[string]int{} // key -> kind -> seq (first)
 	cnt := map[string]map[string]int{}
@@ -685,20 +708,47 @@ func checkLifetime(r *simkit.Run, t *topo, res *lifeResult, failKey, failWhat st
 		}
 		cnt[k][e.Kind]++
 	}
-	// result of Start / Shutdown
-	if failWhat == "start" {
+	// result of Start / Shutdown: what actually failed (a component planned to fail in Start may never be reached when
+	// an earlier one failed first)
+	var startFailed, shutFailed []string
+	for _, k := range sortedKeysOf(pos) {
+		if _, ok := pos[k]["start-fail"]; ok {
+			startFailed = append(startFailed, k)
+		}
+		if _, ok := pos[k]["shutdown-fail"]; ok {
+			shutFailed = append(shutFailed, k)
+		}
+	}
+	if len(startFailed) > 0 {
 		if res.startErr == nil || !errors.Is(res.startErr, errStubStart) {
-			r.Failf("start-error", tag, "Start of %s failed but service.Start returned %v", failKey, res.startErr)
+			r.Failf("start-error", tag, "Start of %v failed but service.Start returned %v", startFailed, res.startErr)
+		}
+		if len(startFailed) > 1 {
+			r.Failf("order", "start-after-failed-start", "the Start of %d components failed (%v): start-up was not aborted by the first failure", len(startFailed), startFailed)
 		}
 	} else if res.startErr != nil {
 		r.Failf("start-error", tag+"/spurious", "service.Start returned %v although no Start failed", res.startErr)
 	}
-	if failWhat == "shutdown" {
+	if len(shutFailed) > 0 {
 		if res.shutErr == nil || !errors.Is(res.shutErr, errStubShutdown) {
-			r.Failf("shutdown-error", tag, "Shutdown of %s failed but service.Shutdown returned %v", failKey, res.shutErr)
+			r.Failf("shutdown-error", tag, "Shutdown of %v failed but service.Shutdown returned %v", shutFailed, res.shutErr)
+		} else {
+			for _, k := range shutFailed {
+				if !strings.Contains(res.shutErr.Error(), k+":") {
+					r.Failf("shutdown-error", "failure-not-reported/"+kindOfKey(k), "Shutdown of %s failed (one of %d failures) but the error returned by service.Shutdown does not report it: %v", k, len(shutFailed), res.shutErr)
+				}
+			}
 		}
 	} else if res.shutErr != nil {
 		r.Failf("shutdown-error", tag+"/spurious", "service.Shutdown returned %v although no Shutdown failed", res.shutErr)
+	}
+	for k, what := range fails {
+		if (what == "shutdown" || what == "both") && cnt[k]["shutdown"] > 0 && cnt[k]["shutdown-fail"] == 0 {
+			r.Failf("harness", "planned-shutdown-failure-missing", "planned shutdown failure of %s did not happen", k)
+		}
+	}
+	if failWhat == "both" {
+		failWhat = "start"
 	}
 	// exactly once: every created instance (by object) is started at most once and shut down exactly once
 	res.world.mu.Lock()
@@ -718,14 +768,16 @@ func checkLifetime(r *simkit.Run, t *topo, res *lifeResult, failKey, failWhat st
 	}
 	// after a start failure nothing else is started
 	if failWhat == "start" {
-		fseq, ok := pos[failKey]["start-fail"]
-		if !ok {
+		if _, ok := pos[failKey]["start-fail"]; !ok {
 			// the component was never reached? then the plan key does not exist in this topology
 			r.Failf("harness", "fail-key-not-reached", "planned start failure of %s never happened", failKey)
 		}
-		for k, m := range pos {
-			if s, ok := m["start"]; ok && s > fseq {
-				r.Failf("order", "start-after-failed-start", "%s was started after the start of %s had failed", k, failKey)
+	}
+	if len(startFailed) > 0 {
+		fseq := pos[startFailed[0]]["start-fail"]
+		for _, k := range sortedKeysOf(pos) {
+			if s, ok := pos[k]["start"]; ok && s > fseq {
+				r.Failf("order", "start-after-failed-start", "%s was started after the start of %s had failed", k, startFailed[0])
 			}
 		}
 	}
@@ -814,7 +866,7 @@ func runC10(r *simkit.Run) {
 		r.Logf("no valid topology drawn")
 		return
 	}
-	mode := tp.Weighted(1, 3) // 0: one failure position from the tape (replay target); 1: enumerate all positions
+	mode := tp.Weighted(1, 3, 2) // 0: one failure position from the tape (replay target); 1: enumerate all positions; 2: a set of failures
 	base := runLifetime(r, &t, "", "")
 	if base.buildErr != nil {
 		r.Failf("build", "valid-rejected", "a valid configuration was rejected: %v", base.buildErr)
@@ -864,6 +916,34 @@ func runC10(r *simkit.Run) {
 		run(all[tp.Draw(len(all))])
 		return
 	}
+	if mode == 2 {
+		// several failures in one lifetime: at most one planned Start failure (the first one reached aborts start-up) and
+		// any number of Shutdown failures, drawn from the tape
+		fails := map[string]string{}
+		if tp.Chance(1, 2) {
+			fails[keys[tp.Draw(len(keys))]] = "start"
+		}
+		n := tp.Range(1, 4)
+		for i := 0; i < n; i++ {
+			k := keys[tp.Draw(len(keys))]
+			if fails[k] == "start" {
+				fails[k] = "both"
+			} else if fails[k] == "" {
+				fails[k] = "shutdown"
+			}
+		}
+		res := runLifetimeSet(r, &t, fails)
+		r.Count("fault.several_component_failures")
+		r.Nontrivial = true
+		r.Events++
+		checkLifetimeSet(r, &t, res, fails)
+		r.AddCase(fmt.Sprintf("%v|%v", t, fails), true)
+		if r.Failed() {
+			r.Logf("failure set: %v", fails)
+			logLifetime(r, res)
+		}
+		return
+	}
 	scriptVals := append([]int(nil), tp.Vals...)
 	for i, p := range all {
 		if !run(p) {
@@ -887,5 +967,14 @@ func logLifetime(r *simkit.Run, res *lifeResult) {
 
 var HarnessC10 = simkit.Harness{
 	Prop: "C10", Name: "svc/c10", Run: runC10, StepTimeout: 20e9, Real: svcReal, Stub: svcStub, HashInsensitive: true,
-	Rule: "one run = one generated valid service configuration (as C09, plus 0-3 extensions with dependency declarations); the service is built, started and shut down fault-free, then once for EVERY single failure position (each started component x {Start fails, Shutdown fails}); the global event log of instrumented components is checked against the partial order implied by the configuration (extensions first/last and after their dependencies, consumers before producers, reverse on shutdown), exactly-once start/shutdown per created instance (shared receivers once), error propagation and clean-up; evaluations = service lifetimes; distinct = distinct (topology, failure position); non-trivial = a failure was injected",
+	Rule: "one run = one generated valid service configuration (as C09, plus 0-3 extensions with dependency declarations); the service is built, started and shut down fault-free, then once for EVERY single failure position (each started component x {Start fails, Shutdown fails}), or (1 run in 3) once with a tape-drawn SET of failures (at most one Start failure plus 1-4 Shutdown failures, every failed Shutdown must appear in the aggregated error); the global event log of instrumented components is checked against the partial order implied by the configuration (extensions first/last and after their dependencies, consumers before producers, reverse on shutdown), exactly-once start/shutdown per created instance (shared receivers once), error propagation and clean-up; evaluations = service lifetimes; distinct = distinct (topology, failure position); non-trivial = a failure was injected",
+}
+
+func sortedKeysOf[V any](m map[string]V) []string {
+	out := make([]string, 0, len(m))
+	for k := range m {
+		out = append(out, k)
+	}
+	sort.Strings(out)
+	return out
 }
